@@ -62,15 +62,12 @@ class SimpleCookieJar:
             if host.endswith(domain) or host == domain[1:]:
                 cookies.append(self.jar.get(domain))
 
+        # sorted by cookie name (sorting the rendered "name=value" text would put "a1" before "a")
         return "; ".join(
-            filter(
-                None,
-                sorted(
-                    [
-                        f"{k}={v.value}"
-                        for cookie in filter(None, cookies)
-                        for k, v in cookie.items()
-                    ]
-                ),
+            f"{k}={v}"
+            for k, v in sorted(
+                (k, morsel.value)
+                for cookie in filter(None, cookies)
+                for k, morsel in cookie.items()
             )
         )
